@@ -16,5 +16,6 @@ def run(prog, rep, tier):
     apply(rep, "Y1", "scanner has no matchable default rule; <<EOF>> per start condition", r_lex.y1(prog), 4)
     apply(rep, "K3", "exit status constants", r_cli.k3(prog), 10)
     apply(rep, "K4", "per-input handlers record errors", r_cli.k4(prog), 2)
+    apply(rep, "K6", "no execution when there is no combination of argument values", r_cli.k6(prog), 1)
     apply(rep, "K5", "status flags accumulate over all inputs", r_cli.k5(prog), 2)
     maybe_mutants("C19", rep, tier)
